@@ -103,8 +103,9 @@ type world struct {
 	baseSnap  string
 
 	simID       int
-	baseUnmined int  // unconfirmed transactions of the base state
-	resynced    bool // a resynchronisation happened since the base state
+	roles       map[chainhash.Hash]string // names of the unconfirmed transactions
+	baseUnmined int                       // unconfirmed transactions of the base state
+	resynced    bool                      // a resynchronisation happened since the base state
 }
 
 var (
@@ -220,7 +221,8 @@ func buildWorld(simID int, specs []CoinSpec) *world {
 	if err := s.Unlock(); err != nil {
 		ev.Fatal("unlock: %v", err)
 	}
-	w := &world{s: s, specs: specs, prev: map[wire.OutPoint]*coin{}, pubInputs: map[wire.OutPoint]bool{}, simID: simID}
+	w := &world{s: s, specs: specs, prev: map[wire.OutPoint]*coin{}, pubInputs: map[wire.OutPoint]bool{}, simID: simID,
+		roles: map[chainhash.Hash]string{}}
 
 	T := int32(3)
 	for _, sp := range specs {
@@ -253,8 +255,10 @@ func buildWorld(simID int, specs []CoinSpec) *world {
 		switch sp.Status {
 		case stUnconfirmed:
 			late = append(late, tx)
+			w.roles[tx.TxHash()] = fmt.Sprintf("receipt-coin%d", i)
 		case stRolledBack:
 			rolled = append(rolled, tx)
+			w.roles[tx.TxHash()] = fmt.Sprintf("receipt-coin%d", i)
 		case stConf1:
 			cn.height = T
 		case stCoinbaseImmature:
@@ -272,7 +276,9 @@ func buildWorld(simID int, specs []CoinSpec) *world {
 			spendsAtTip = append(spendsAtTip, spendTx(cn.op, cn.amount))
 			cn.spent = "spent-by-confirmed"
 		case stSpentUnconfirmed:
-			lateSpends = append(lateSpends, spendTx(cn.op, cn.amount))
+			sp := spendTx(cn.op, cn.amount)
+			lateSpends = append(lateSpends, sp)
+			w.roles[sp.TxHash()] = fmt.Sprintf("spender-coin%d", i)
 			cn.spent = "spent-by-unconfirmed"
 		}
 		w.coins = append(w.coins, cn)
@@ -392,6 +398,9 @@ func (w *world) undo() {
 	if err != nil {
 		ev.Fatal("undo: %v", err)
 	}
+	for _, tx := range w.published {
+		delete(w.roles, tx.TxHash())
+	}
 	w.published = nil
 	w.pubInputs = map[wire.OutPoint]bool{}
 	for _, cn := range w.coins[w.nbase:] {
@@ -428,7 +437,7 @@ func (w *world) rebuild() {
 // "restart": stop, open, attach) and answers the rebroadcast of the i-th
 // unconfirmed transaction with answers[i] ("accept" or "mempool" =
 // chain.ErrTxAlreadyInMempool).
-func (w *world) resync(kind string, answers []string) {
+func (w *world) resync(kind string, answers []string) map[string]string {
 	s := w.s
 	resyncs++
 	w.resynced = true
@@ -457,8 +466,23 @@ func (w *world) resync(kind string, answers []string) {
 		}
 	}
 	s.BE.SendAnswers = script
+	sentBefore := s.BE.SentCount()
 	s.FinishRescans()
 	s.BE.SendAnswers = nil
+	// The order in which the wallet rebroadcasts independent transactions
+	// is not fixed; record which transaction received which answer.
+	got := map[string]string{}
+	for i := sentBefore; i < len(s.BE.Sent); i++ {
+		name, ok := w.roles[s.BE.Sent[i].TxHash()]
+		if !ok {
+			name = s.BE.Sent[i].TxHash().String()
+		}
+		a := "accept"
+		if s.BE.SentErr[i] != nil {
+			a = "mempool"
+		}
+		got[name] = a
+	}
 	if kind == "restart" {
 		if err := s.Unlock(); err != nil {
 			ev.Fatal("unlock after restart: %v", err)
@@ -472,6 +496,7 @@ func (w *world) resync(kind string, answers []string) {
 		}
 	}
 	s.Quiesce()
+	return got
 }
 
 // reason returns "" when the coin is eligible for a request with the given
